@@ -18,6 +18,8 @@ CHECKS = {
     "batch_wait_timer": ["C20", "C11", "C07", "C02"],
     "flow_run_spelled_out": ["C02", "C03", "C10", "C11"],
     "queue_unbuffered": ["C12", "C08", "C06", "C11"],
+    "flow_exec_recursive": ["C03", "C10", "C04", "C05"],
+    "error_result_keeps_state": ["C18", "C17", "C01", "C15", "C06"],
 }
 def sh(cmd, cwd=None, env=None, timeout=3600):
     p = subprocess.run(cmd, shell=True, cwd=cwd, env=env or ENV, stdout=subprocess.PIPE, stderr=subprocess.STDOUT, text=True, timeout=timeout)
